@@ -47,6 +47,11 @@ struct PHashTable_ {
 /* Size of unique hash keys in hash table */
 #define P_HASH_TABLE_SIZE 101
 
+#if defined (PLIBSYS_VERIF) && defined (PLIBSYS_VERIF_HASH_TABLE_SIZE)
+#  undef P_HASH_TABLE_SIZE
+#  define P_HASH_TABLE_SIZE PLIBSYS_VERIF_HASH_TABLE_SIZE
+#endif
+
 static puint pp_hash_table_calc_hash (pconstpointer pointer, psize modulo);
 static PHashTableNode * pp_hash_table_find_node (const PHashTable *table, pconstpointer key, puint hash);
 
